@@ -158,6 +158,17 @@ bool prop_C05(Tape& t, Report& rep)
             root.kind = "sparse";
             sparse = true;
         }
+        else if (t.chance(1, 8))
+        {
+            // castling available (or nearly: path squares occupied / attacked): bestmove and every pv must stay legal
+            for (int k = 0; k < 4; ++k)
+            {
+                root.start = root.cur = gen::theme_castling(t, &rep);
+                if (!ref::legal_moves(root.cur).empty()) break;
+            }
+            root.kind = "castling_theme";
+            rep.cls("c05:castling_theme_root");
+        }
         else if (t.chance(1, 30))
         {
             // a position at the end of a very long legal game (the search tree crosses the 800th ply)
@@ -358,6 +369,40 @@ ref::Pos mate_in_one_root(Tape& t, Report& rep, bool& found)
         }
         bool w = !t.flag();  // attacker colour = side to move
         p.wtm = w;
+        if (t.chance(1, 4))
+        {
+            // pawn-mate skeleton: the weak king in a corner behind its own pawn, the attacker's king a knight's move away,
+            // an attacker pawn one step from giving check on the neighbouring file (b6-b7# style), plus decoration
+            int cf = t.flag() ? 0 : 7, dir = cf == 0 ? 1 : -1;
+            auto R = [&](int rel) { return w ? rel : 7 - rel; };
+            p.b[ref::SQ(cf, R(7))] = w ? 'k' : 'K';
+            if (!t.chance(1, 4)) p.b[ref::SQ(cf, R(6))] = w ? 'p' : 'P';
+            p.b[ref::SQ(cf + 2 * dir, R(6))] = w ? 'K' : 'k';
+            p.b[ref::SQ(cf + dir, R(5))] = w ? 'P' : 'p';
+            int hs = gen::free_square(t, p, false);
+            if (hs >= 0) p.b[hs] = w ? "QRBN"[t.choose(4)] : "qrbn"[t.choose(4)];
+            if (t.flag())
+            {
+                int ds = gen::free_square(t, p, true);
+                if (ds >= 0) p.b[ds] = w ? 'p' : 'P';
+            }
+            gen::choose_clocks(t, p);
+            if (p.half >= 100) p.half = 99;
+            gen::repair_not_to_move_check(p);
+            if (!ref::domain_violation(p).empty() || ref::legal_moves(p).empty()) continue;
+            last = p;
+            rep.cls("c08:mate1_candidates_tried");
+            std::vector<ref::Move> mm = ref::mates_in_one(p);
+            bool pawnMate = false;
+            for (auto& m : mm) pawnMate |= ref::lower(p.b[m.from]) == 'p';
+            if (!mm.empty())
+            {
+                found = true;
+                if (pawnMate) rep.cls("c08:mate_in_one_by_pawn_available");
+                return p;
+            }
+            continue;
+        }
         // weak king on the edge, strong king two squares away, heavy pieces around
         int ef = int(t.choose(8)), er = t.chance(3, 4) ? (t.flag() ? 0 : 7) : int(t.choose(8));
         if (t.flag()) std::swap(ef, er);
